@@ -63,6 +63,29 @@ def matchesOf (env : MEnv) (h : Heap) : List Step → Nat → Val → MatchRes
 
 def hasStar (steps : List Step) : Bool := steps.any (fun s => s.1 == "x" || s.1 == "X")
 
+/-! ### the prescription does not take the registry's word for the builtin types
+
+  "The corresponding plain Python nested item / attribute assignment" is fixed by the *kind* of the
+  object, not by what glom's registry happens to hold: a dict is assigned by `d[k] = v`, a list by
+  `l[int(k)] = v`, a tuple not at all, any other object by `setattr`.  The prescription is computed
+  with these tables (user registrations in front, as the user made them); the model runs on the
+  tables read from the implementation's registry.  That the two agree on the unchanged tree is a
+  facts obligation (`c11_facts_natural`). -/
+
+def naturalAssignReg : List (String × String) :=
+  [("dict", "setitem"), ("list", "_set_sequence_item"), ("tuple", "False"), ("object", "setattr")]
+
+def naturalDeleteReg : List (String × String) :=
+  [("dict", "delitem"), ("list", "_del_sequence_item"), ("tuple", "False"), ("object", "delattr")]
+
+/-- the environment of the prescription: `ua` / `ud` are the user's own registrations -/
+def MEnv.natural (env : MEnv) (ua ud : List (String × String)) : MEnv :=
+  { env with assignReg := ua ++ naturalAssignReg, deleteReg := ud ++ naturalDeleteReg }
+
+/-- on the classes of `ct` the registry `reg` gives the handler `nat` gives -/
+def regAgrees (ct : ClassTable) (reg nat : List (String × String)) : Bool :=
+  ct.all (fun p => nearestHandler ct reg p.1 == nearestHandler ct nat p.1)
+
 /-! ### side conditions of the theorems (decidable; the driver evaluates them per case) -/
 
 /-- steps of a destination path: item / attribute / plain-segment / `*` steps -/
@@ -105,6 +128,23 @@ def noScope (env : MEnv) : Bool := env.flags.all (fun p => !p.2.contains "scope"
 /-- the classes of factory-made objects do not stand for the scope mapping -/
 def freshNotScope (env : MEnv) : Bool :=
   ["dict", "list", "Obj", "tuple"].all (fun c => !env.flag c "scope")
+
+/-- `int(s)` as the kernel models it (`pyIntOfStr`: `[+-]?[0-9]+`, anything else a ValueError) is
+    CPython's `int(s)` for strings of printable ASCII characters without `_`: CPython also strips
+    whitespace (`' 1 '`), skips single underscores (`'0_1'`) and reads every Unicode decimal digit -/
+def safeIntStr (s : String) : Bool :=
+  s.toList.all (fun c => 33 ≤ c.toNat && c.toNat ≤ 126 && c != '_')
+
+/-- a path argument on which the kernel's `int()` is CPython's (floats — `int(1.5) == 1` — are outside) -/
+def intSafeVal : Val → Bool
+  | .str s => safeIntStr s
+  | .float _ => false
+  | _ => true
+
+/-- **domain of the model's `int()`**: every segment that may reach `int()` (through a sequence
+    handler) is one on which the kernel's `int()` is CPython's.  A hypothesis of every theorem's
+    domain (`covered`); the driver skips the cases outside it. -/
+def intSafe (steps : List Step) : Bool := steps.all (fun s => intSafeVal s.2)
 
 /-- path arguments are immediate values (never heap references) -/
 def argsScalar : List Step → Bool
@@ -358,6 +398,71 @@ def observe (env : MEnv) (out : St × Except MErr Val) : Obs :=
       | .error e => observeErr env e
     heap := out.1.heap, calls := out.1.calls, hidden := out.1.hidden }
 
+/-! ### which error -/
+
+/-- what the property's reading fixes about the error of an assignment that cannot be completed -/
+inductive ErrExp where
+  | any                                      -- an error (failures inside the `missing` backfill, wildcard paths, …)
+  | ctor                                     -- rejected by `Assign.__init__`: ValueError, raised outside `glom()`
+  | pae (k : Nat) (e : PyExc)                -- PathAccessError(e) at segment `k`: the walk (of the parent path without a factory; of the value's path) stops there
+  | fault (op : String) (e : PyExc) (arg : Val)  -- the final step's primitive raised `e` on the parent
+  | unregistered                             -- the parent's type has no `assign` handler
+  deriving DecidableEq, Repr
+
+/-- exceptions the `assign` handlers can raise -/
+def assignHandlerExcs : List String :=
+  ["TypeError", "IndexError", "AttributeError", "RuntimeError", "ValueError", "NotImplementedError"]
+
+/-- **The error the property prescribes**, as far as it prescribes one: a destination the constructor
+    rejects is a ValueError; a parent path (no factory) or value path that stops at segment `k` on
+    exception `e` is `PathAccessError(e, part_idx = k)`; a failing final step is a
+    `PathAssignError(e, dest_name = arg)` when the step is a plain segment (the registered handler's
+    failure — any exception — means "cannot be assigned") and Python's own exception `e` when the
+    step is `T[arg]` / `T.arg` (the user wrote the item / attribute assignment themselves); a type
+    without an `assign` handler is UnregisteredTarget.  Not taken from the extracted `except` clauses. -/
+def refErr (env : MEnv) (h : Heap) (target root : Val) (orig : List Step) (vs : ValSpec)
+    (missing : Missing) : ErrExp :=
+  match orig.getLast? with
+  | none => .ctor
+  | some (op, arg) =>
+    if !finalOk op then .ctor else
+    if valUnsupported h vs then .any else
+    match refVal env h target vs with
+    | none =>
+      (match vs with
+       | .path s => (match matchesOf env h s 0 target with | .fail k e _ => .pae k e | _ => .any)
+       | _ => .any)
+    | some v =>
+      match matchesOf env h orig.dropLast 0 root with
+      | .ok [d] =>
+        if hasStar orig then .any else
+        (match refAssignOp env h op d arg v with
+         | some (.error e) => .fault op e arg
+         | none => .unregistered
+         | _ => .any)
+      | .fail k e _ => (match missing with | .none => if hasStar orig then .any else .pae k e | _ => .any)
+      | _ => .any
+
+def errMatches (env : MEnv) (exp : ErrExp) (o : ObsRes) : Bool :=
+  match exp with
+  | .any => o.isErr
+  | .ctor => o == obsErr env "ValueError" none none none false
+  | .pae k e => o == obsErr env "PathAccessError" (some e.cls) (some k) none true
+  | .fault op e arg =>
+    if op == "P" then o == obsErr env "PathAssignError" (some e.cls) none (some arg) true
+    else o == obsErr env e.cls none none none true
+  | .unregistered => o == obsErr env "UnregisteredTarget" none none none true
+
+/-- the `except` clauses of `_assign_op` say what the reading says: `[` and `.` catch nothing, the
+    plain-segment branch wraps every exception a handler raises into a PathAssignError -/
+def assignWrapOK (env : MEnv) : Bool :=
+  (branchOf env.assignBr "[").map (·.2.1) == some [] &&
+  (branchOf env.assignBr ".").map (·.2.1) == some [] &&
+  (match branchOf env.assignBr "P" with
+   | some (_, caught, raises) =>
+     raises == "PathAssignError" && assignHandlerExcs.all (fun n => C01.caughtBy env.t caught ⟨n⟩)
+   | none => false)
+
 /-- **The property, evaluated on an observation** (of the model, or of the
     implementation) against a prescription: success ⇒ the same object is returned, the heap is exactly
     the plain-Python result (every other cell untouched; the absent segments
@@ -378,6 +483,11 @@ def checkC11 (env : MEnv) (h : Heap) (target root : Val) (orig : List Step) (vs 
     (missing : Missing) (obs : Obs) : Bool :=
   checkRef h target (refAssign env h target root orig vs missing) obs
 
+/-- **… and which error**: when the call raises, the exception is the one the reading prescribes (`refErr`) -/
+def checkErr (env : MEnv) (h : Heap) (target root : Val) (orig : List Step) (vs : ValSpec)
+    (missing : Missing) (obs : Obs) : Bool :=
+  !obs.res.isErr || errMatches env (refErr env h target root orig vs missing) obs.res
+
 /-- the prescription for a literal in `val` position: the value is what arg mode makes of the literal
     (scalars, objects and subclass instances themselves; an exact list / dict / tuple / set rebuilt,
     one new list / dict per distinct original, T leaves evaluated against the target), then the
@@ -385,7 +495,7 @@ def checkC11 (env : MEnv) (h : Heap) (target root : Val) (orig : List Step) (vs 
 def refAssignU (env : MEnv) (fuel : Nat) (h : Heap) (target root : Val) (orig : List Step) (uv : UVal)
     (missing : Missing) : RefRes :=
   match uv with
-  | .path s => refAssign env h target root orig (.path s) missing
+  | .vs v => refAssign env h target root orig v missing
   | .lit v =>
     match orig.getLast? with
     | none => .fail true
@@ -395,6 +505,24 @@ def refAssignU (env : MEnv) (fuel : Nat) (h : Heap) (target root : Val) (orig : 
       | (_, _, .error .unmodelled) => .unsupported
       | (_, _, .error _) => .fail true
       | (st1, _, .ok v') => refAssign env st1.heap target root orig (.val v') missing
+
+/-- `refErr` for either kind of value (a literal: after `arg_val`; an error inside `arg_val` is not classified) -/
+def refErrU (env : MEnv) (fuel : Nat) (h : Heap) (target root : Val) (orig : List Step) (uv : UVal)
+    (missing : Missing) : ErrExp :=
+  match uv with
+  | .vs v => refErr env h target root orig v missing
+  | .lit v =>
+    match orig.getLast? with
+    | none => .ctor
+    | some (op, _) =>
+      if !finalOk op then .ctor else
+      match argEval env target fuel { heap := h } [] v with
+      | (st1, _, .ok v') => refErr env st1.heap target root orig (.val v') missing
+      | _ => .any
+
+def checkErrU (env : MEnv) (fuel : Nat) (h : Heap) (target root : Val) (orig : List Step) (uv : UVal)
+    (missing : Missing) (obs : Obs) : Bool :=
+  !obs.res.isErr || errMatches env (refErrU env fuel h target root orig uv missing) obs.res
 
 def checkC11U (env : MEnv) (fuel : Nat) (h : Heap) (target root : Val) (orig : List Step) (uv : UVal)
     (missing : Missing) (obs : Obs) (unobs : List Nat := []) : Bool :=
@@ -416,7 +544,7 @@ def reach (h : Heap) (v : Val) : List Nat := visitNew h 0 (h.length + 1) [] v
 /-- the two records (and the literal value, if any) share nothing with the second record -/
 def recordsDisjoint (h : Heap) (target target2 : Val) (uv : UVal) : Bool :=
   let r2 := reach h target2
-  let r1 := reach h target ++ (match uv with | .lit v => reach h v | .path _ => [])
+  let r1 := reach h target ++ (match uv with | .lit v => reach h v | .vs (.val v) => reach h v | .vs _ => [])
   r1.all (fun a => !r2.contains a)
 
 /-- what two overlapping evaluations of one spec on two records that share nothing must amount to -/
@@ -551,7 +679,8 @@ def covered (env : MEnv) (h : Heap) (target : Val) (sroot : Bool) (orig : List S
     (missing : Missing) : Bool :=
   let _ := target; let _ := sroot
   WF env && classesOK env && C01.wfSteps orig && valWf vs && !valUnsupported h vs &&
-    missingOK env orig missing
+    missingOK env orig missing &&
+    (intSafe orig && (match vs with | .path s => intSafe s | _ => true))
 
 /-- every T-expression cell of the heap consists of item / attribute / plain-segment steps -/
 def tleafsWf (env : MEnv) (h : Heap) : Bool :=
@@ -565,6 +694,9 @@ def tleafsWf (env : MEnv) (h : Heap) : Bool :=
 def coveredLit (env : MEnv) (fuel : Nat) (h : Heap) (target : Val) (orig : List Step) (v : Val)
     (missing : Missing) : Bool :=
   WF env && classesOK env && C01.wfSteps orig && missingOK env orig missing &&
-    (argEval env target fuel { heap := h } [] v).2.2 != .error .unmodelled
+    (argEval env target fuel { heap := h } [] v).2.2 != .error .unmodelled &&
+    (intSafe orig && h.all (fun o => match o with
+      | .inst c steps => !env.flag c "tleaf" || intSafe steps
+      | _ => true))
 
 end Glom.C11
